@@ -651,3 +651,24 @@ let classify_sudoku (_ : sx) (real : string) (model : string) : string =
     | Some h1, Some h2 -> if h1 <> h2 then "hints" else "output"
     | _ -> "output"
 let () = Hashtbl.replace classifiers "sudoku" classify_sudoku
+
+(* queenssols n : candidate placements come from a backtracking enumerator (glue); each is checked against the MODEL
+   formula with the extracted fsem, so by C15 the count is the number of n-queens solutions among the candidates *)
+let op_queenssols (args : sx) : string =
+  match args with
+  | L [n] ->
+      let n = int_atom n in
+      let sols = ref [] in
+      let rec go cur r =
+        if r = n then sols := List.rev cur :: !sols
+        else for c = 0 to n - 1 do
+          if List.for_all (fun (r2, c2) -> c2 <> c && r - r2 <> abs (c - c2)) (List.mapi (fun i x -> (r - 1 - i, x)) cur) then go (c :: cur) (r + 1)
+        done in
+      go [] 0;
+      let f = queens_form (nat_of_int n) in
+      let sat pl = fsem f (fun v -> let k = int_of_nat v in k / n < n && List.nth pl (k / n) = k mod n) in
+      let good = List.filter sat !sols in
+      Printf.sprintf "(ok %d %d (rejected ) (accepted-wrongly ))" (List.length !sols) (List.length good)
+  | _ -> raise (Bad "queenssols")
+let () = Hashtbl.replace table "queenssols" op_queenssols;
+  Hashtbl.replace classifiers "queenssols" (fun _ real _ -> if real = "(panic)" then "panic" else if real = "(not-a-formula)" then "illformed" else "models")
